@@ -286,6 +286,7 @@ func (c *SpecCtx) bin(n *EBin) TV {
 	b := c.eval(n.Y)
 	switch n.Op {
 	case "==", "!=":
+		a, b = c.derefArrayPtr(a, b)
 		a, b = c.unifyNil(a, b)
 		t := pickType(a.T, b.T)
 		var r Term
@@ -621,7 +622,8 @@ func (c *SpecCtx) field(x TV, fname string) TV {
 			st := p.Elem()
 			l := c.e.fieldLoc(ref, st, idx)
 			ft := st.Underlying().(*types.Struct).Field(idx).Type()
-			if l.Kind == locInst && (shapeKindOf(ft) == kStruct || shapeKindOf(ft) == kArrayOfComposite) {
+			_, isArrField := ft.Underlying().(*types.Array)
+			if l.Kind == locInst && (shapeKindOf(ft) == kStruct || shapeKindOf(ft) == kArrayOfComposite || (isArrField && !isOpaque(ft))) {
 				// keep as pointer to nested instance for further selection
 				cur = TV{Sc{l.Ref}, types.NewPointer(ft)}
 				// but if this is the last step, load the value
@@ -692,6 +694,13 @@ func (c *SpecCtx) index(n *EIndex) TV {
 		i := c.asInt(c.eval(n.I))
 		if s, ok := x.V.(Sc); ok {
 			return TV{Sc{sel(s.T, i)}, t.Elem()}
+		}
+		if arr, ok := x.V.(ArrayV); ok {
+			v := arr.E[len(arr.E)-1]
+			for k := len(arr.E) - 2; k >= 0; k-- {
+				v = iteValue(eq(i, intLit(int64(k))), arr.E[k], v)
+			}
+			return TV{v, t.Elem()}
 		}
 	case *types.Pointer:
 		if at, ok := t.Elem().Underlying().(*types.Array); ok {
@@ -774,6 +783,10 @@ func (c *SpecCtx) call(n *ECall) TV {
 				switch t := a.T.Underlying().(type) {
 				case *types.Array:
 					return TV{Sc{intLit(t.Len())}, mathInt}
+				case *types.Pointer:
+					if at, ok := t.Elem().Underlying().(*types.Array); ok {
+						return TV{Sc{intLit(at.Len())}, mathInt}
+					}
 				case *types.Map:
 					mi := c.e.mapInfoOf(a.T)
 					return TV{Sc{c.e.mapLen(c.heap, mi, v.T)}, mathInt}
@@ -1188,4 +1201,36 @@ func (c *SpecCtx) functionAxioms(fn *types.Func, key string, args []TV, out TV) 
 		}
 		c.e.assumeGlobal(t, "function axiom of "+key+": "+en.Src)
 	}
+}
+
+// derefArrayPtr: array-typed fields are kept as pointers to their storage; when compared with an
+// array value they are loaded.
+func (c *SpecCtx) derefArrayPtr(a, b TV) (TV, TV) {
+	isArrPtr := func(t types.Type) (types.Type, bool) {
+		if t == nil {
+			return nil, false
+		}
+		p, ok := t.Underlying().(*types.Pointer)
+		if !ok {
+			return nil, false
+		}
+		if _, ok := p.Elem().Underlying().(*types.Array); ok {
+			return p.Elem(), true
+		}
+		return nil, false
+	}
+	isArr := func(t types.Type) bool {
+		if t == nil {
+			return false
+		}
+		_, ok := t.Underlying().(*types.Array)
+		return ok
+	}
+	if et, ok := isArrPtr(a.T); ok && (isArr(b.T) || func() bool { _, ok := isArrPtr(b.T); return ok }()) {
+		a = TV{c.e.load(c.heap, locOfRef(a.V.(Sc).T, et)), et}
+	}
+	if et, ok := isArrPtr(b.T); ok && isArr(a.T) {
+		b = TV{c.e.load(c.heap, locOfRef(b.V.(Sc).T, et)), et}
+	}
+	return a, b
 }
